@@ -5,7 +5,7 @@
 #   changed copy and prints which properties report a VIOLATION. Nothing is written to /repo.
 set -u
 P=$1; X=$2; shift 2; FLAGS="$*"
-OUT=/tmp/seedwt/$P/SEED_OUT
+OUT=${SEEDROOT:-/tmp/seedwt}/$P/SEED_OUT
 export GOFLAGS=-mod=mod GOPROXY=off GOSUMDB=off GOTOOLCHAIN=local; unset GOWORK
 W=/tmp/seedeval/$P-$X
 rm -rf $W; mkdir -p $W/with $W/without
